@@ -368,7 +368,33 @@ def boundary_shapes():
         # nested structs with tail padding (the flattening of arch.go loses it)
         S(S(I4, I1), I1, I4), S(S(I4, I1), I1, I1), S(S(I4, I1), I1, F4), S(A(2, S(I4, I1))), S(S(I2, I1), I1, F4, F4),
         S(S(I4, I1), F4, F4), S(S(I2, I1), I2, I8), S(I1, S(I4, I1), I1), S(S(F4, I1), F4, F4),
+        # arrays of structs and nested arrays (length 1-3) inside 2..16-byte structs: the leaf count of an array is
+        # length x leaves of its element (elementTypesCount), it decides keep / one part / the n == 2 shortcut
+        S(A(1, S(I4, I4))), S(A(1, A(2, F4))), S(I8, A(1, S(I4, I4))), S(A(1, A(3, I1)), I4), S(A(1, S(I1, I1))),
+        S(A(2, S(I2, I2))), S(A(3, S(I1, I1))), S(A(2, A(2, I2))), S(A(1, S(F4, F4)), F4), S(A(2, S(F4, F4))),
+        S(A(1, S(F8, F8))), S(A(1, A(2, I8))), S(F8, A(1, A(2, F4))), S(A(1, S(I4, F4)), I8), S(A(1, A(1, A(2, I4)))),
+        S(A(3, A(1, I4)), I4), S(I4, A(1, S(I2, I1))), S(A(1, S(P, I4))), S(A(2, A(3, I1)), I2), S(A(1, S(I8)), A(1, S(F4, F4))),
+        S(A(1, A(1, I8)), I1), S(A(1, S(A(2, I2), I4)), I8),
     ]
+
+
+def random_small_nested(rng):
+    """a 2..16-byte struct whose members are scalars and arrays (length 1-3) of small structs or of arrays"""
+    def member():
+        k = rng.randrange(4)
+        sc = lambda: SCALARS[rng.randrange(len(SCALARS))]
+        if k == 0:
+            return sc()
+        if k == 1:
+            return ("a", rng.randrange(1, 4), ("s", [sc() for _ in range(rng.randrange(1, 4))]))
+        if k == 2:
+            return ("a", rng.randrange(1, 4), ("a", rng.randrange(1, 4), sc()))
+        return ("a", rng.randrange(1, 3), ("a", 1, ("s", [sc() for _ in range(rng.randrange(1, 3))])))
+    while True:
+        t = ("s", [member() for _ in range(rng.randrange(1, 4))])
+        s, _ = size_align(t)
+        if 2 <= s <= 16 and any(f[0] == "a" for f in t[1]):
+            return t
 
 
 def random_shape(rng, depth=2):
